@@ -30,6 +30,14 @@ CLAIMED = {
             "action, binds the observed content and evaluates readable / views-agree / effect-visible.",
             "Content is abstracted to a value in the model; concrete arguments per operation are fixed in the harness; "
             "histories that interleave a suspended generator with other calls are outside 'legal' (documented by the library).", "4 (C04)"),
+    "C14": ("Transpose", "TLC model check of Transpose.tla (message-at-a-time shift/wrap/key system) + execution of its initial "
+            "states on real Sequence and Bar objects + TLC trace validation",
+            "TLC checks range, pitch-class image, flag and inverse laws on the reference system for every piece (<=2 notes at "
+            "and near both range limits, 4 key-signature sets) x 19 intervals; the same cases plus seeded random ones "
+            "(intervals -130..130) run on the real code as Sequence and as Bar, and TLC evaluates each clause of the property "
+            "on the observed pre/post views, result flag, transposed-back copy and bar key.",
+            "Bounded scope; keys are compared up to enharmonic spelling via Theory's tonic table; when notes are wrapped the "
+            "post-processing (normalise, note lengths) is judged only by the clauses the property states.", "6 (C14)"),
 }
 PENDING = {}
 props = [json.loads(l) for l in open(V / "properties.jsonl")]
